@@ -9,5 +9,6 @@ CONSTANTS
   NoCtx <- TraceNone
   SbThreshold <- TraceSb
   TrackStream = FALSE
+  CtxSym <- TraceNoSym
 POSTCONDITION TraceAccepted
 CHECK_DEADLOCK FALSE
